@@ -1,8 +1,10 @@
 mod canon;
+mod cli;
 mod consts;
 mod ctx;
 mod fam_cipher;
 mod fam_codec;
+mod fam_edit;
 mod fam_frame;
 mod fam_round;
 mod fam_split;
@@ -49,6 +51,7 @@ fn main() {
         "cipher-sm" => fam_cipher::cipher_sm(&mut ctx),
         "codec" => fam_codec::codec(&mut ctx),
         "entry" => fam_codec::entry(&mut ctx),
+        "edit" => fam_edit::edit(&mut ctx),
         "roundtrip" => fam_round::roundtrip(&mut ctx),
         "split" => fam_split::split(&mut ctx),
         f => {
